@@ -192,7 +192,9 @@ class PDFPage:
             return us_letter
 
         try:
-            return parse_rect(resolve1(val) for val in resolve1(value))
+            return self._normalize_rect(
+                parse_rect(resolve1(val) for val in resolve1(value))
+            )
 
         except PDFValueError:
             log.warning("Invalid MediaBox in /Page, defaulting to US Letter")
@@ -204,11 +206,20 @@ class PDFPage:
             return mediabox
 
         try:
-            return parse_rect(resolve1(val) for val in resolve1(value))
+            return self._normalize_rect(
+                parse_rect(resolve1(val) for val in resolve1(value))
+            )
 
         except PDFValueError:
             log.warning("Invalid CropBox in /Page, defaulting to MediaBox")
             return mediabox
+
+    @staticmethod
+    def _normalize_rect(rect: Rect) -> Rect:
+        """A rectangle may be given by any two diagonally opposite corners
+        (ISO 32000-1, 7.9.5); return it as (left, bottom, right, top)."""
+        (x0, y0, x1, y1) = rect
+        return (min(x0, x1), min(y0, y1), max(x0, x1), max(y0, y1))
 
     def _parse_contents(self, value: Any) -> List[Any]:
         contents: List[Any] = []
